@@ -1,6 +1,314 @@
-/-! Driver entry for property C24 (stub: not implemented yet). -/
-namespace HeartwoodModel.Driver.C24
+import HeartwoodModel.Model.Stores
+import HeartwoodModel.Driver.Util
+/-! Driver entry for C24.
 
-def run (_args : List String) : String := "unimplemented"
+Case: `<store> <op> <op> …`, `store ∈ {routing, sync, refs, policy, gossip}`; every op is a `:`-separated
+token. Output: one token per op (`result` for queries, `result|dump` for writes, where `dump` is the whole
+table, sorted). All identifiers are small indices into pools fixed by the harness.
+
+* `routing`: `add:<nid>:<t>:<rid,…>` → one of `S`/`T`/`N` per rid (SeedAdded/TimeUpdated/NotUpdated) ·
+  `rm:<rid>:<nid>` → `0|1` · `rmm:<nid>:<rid,…>` → `ok` ·
+  `prune:<oldest>:<limit|->:<ignore>:<deleted>` → count; `<deleted>` (`rid.nid,…` or `-`) is the set of rows
+  the REAL code deleted: the model checks that it is the outcome of a legal selection of the inner `SELECT`
+  (else `rejected`) · queries `entry:<rid>:<nid>`, `get:<rid>`, `inv:<nid>`, `len`, `count:<rid>`.
+  Dump: `rid.nid@ts,…`.
+* `sync`: `syn:<rid>:<nid>:<head>:<t>` → `0|1` · queries `for:<rid>`, `by:<nid>`. Dump: `rid.nid=head@ts,…`.
+* `refs`: `set:<repo>:<ns>:<ref>:<oid>:<t>` → `0|1` · `del:<repo>:<ns>:<ref>` → `0|1` · `get:…` · `count`.
+* `policy`: `follow:<id>:<alias>` `fpol:<id>:<a|b>` `unfollow:<id>` `unblockn:<id>` `seed:<id>:<f|a>`
+  `spol:<id>:<a|b>` `unseed:<id>` `unblockr:<id>` → `0|1`. Dump: `F:id=alias/p,…;S:id=A.f|A.a|B,…`.
+* `gossip`: `ann:<node>:<repo>:<type>:<payload>:<ts>` → rowid / `none` / `panic` (the run stops) ·
+  `relay:<rowid>:<r|d|t<now>>` → `ok` · `relays:<now>` → `rowid:row,…` in rowid order · `prune:<cutoff>` → count ·
+  queries `filt:<from>:<to>`, `last`. Dump: `node.repo.type=payload@ts,…`. -/
+namespace HeartwoodModel.Driver.C24
+open HeartwoodModel.Stores HeartwoodModel.Driver.Util
+
+def insertBy (lt : α → α → Bool) (x : α) : List α → List α
+  | [] => [x]
+  | y :: ys => if lt x y then x :: y :: ys else y :: insertBy lt x ys
+
+def sortBy (lt : α → α → Bool) (l : List α) : List α := l.foldl (fun acc x => insertBy lt x acc) []
+
+def lexLt : List Nat → List Nat → Bool
+  | [], [] => false
+  | [], _ :: _ => true
+  | _ :: _, [] => false
+  | a :: as, b :: bs => if a < b then true else if b < a then false else lexLt as bs
+
+def showRows (rows : List (List Nat × String)) : String :=
+  if rows.isEmpty then "-" else joinWith "," ((sortBy (fun a b => lexLt a.1 b.1) rows).map (·.2))
+
+def sortNats (l : List Nat) : List Nat := sortBy (fun a b => decide (a < b)) l
+
+/-! ### routing -/
+
+def dumpRouting (st : Routing) : String :=
+  showRows (st.map fun e => ([e.1.1, e.1.2], s!"{e.1.1}.{e.1.2}@{e.2}"))
+
+def parseKeys (s : String) : Option (List RKey) :=
+  if s == "-" then some [] else
+    (splitOn s ',').mapM fun k =>
+      match splitOn k '.' with
+      | [a, b] => do
+        let a ← nat? a
+        let b ← nat? b
+        some (a, b)
+      | _ => none
+
+def sameSet (a b : List RKey) : Bool := a.all b.contains && b.all a.contains
+
+/-- From the set of deleted rows, reconstruct a selection of the inner `SELECT` that explains it: all
+candidates strictly older than the cut, the deleted rows at the cut, and as many rows of the ignored node at
+the cut as are needed to fill the limit. -/
+def guessSelection (st : Routing) (oldest : Nat) (limit : Option Nat) (ignore : Nat) (deleted : List RKey) :
+    List RKey :=
+  let cand := sortBy (fun a b => decide (a.2 < b.2)) (Routing.candidates st oldest)
+  let k := Routing.selSize st oldest limit
+  match (cand.drop (k - 1)).head? with
+  | none => []
+  | some cut =>
+    if k = 0 then [] else
+    let must := (cand.filter (fun e => e.2 < cut.2)).map (·.1)
+    let ties := (cand.filter (fun e => e.2 = cut.2)).map (·.1)
+    let chosen := ties.filter deleted.contains
+    let fill := (ties.filter (fun key => key.2 = ignore)).take (k - must.length - chosen.length)
+    must ++ chosen ++ fill
+
+def routingOp (st : Routing) (f : List String) : Option (Routing × String) :=
+  match f with
+  | ["add", nid, t, rids] => do
+    let nid ← nat? nid
+    let t ← nat? t
+    let rids ← nats? rids
+    let r := Routing.add st rids nid t
+    let chars := r.2.map fun
+      | .seedAdded => "S"
+      | .timeUpdated => "T"
+      | .notUpdated => "N"
+    some (r.1, s!"{joinWith "" chars}|{dumpRouting r.1}")
+  | ["rm", rid, nid] => do
+    let rid ← nat? rid
+    let nid ← nat? nid
+    let r := Routing.remove st rid nid
+    some (r.1, s!"{showBool r.2}|{dumpRouting r.1}")
+  | ["rmm", nid, rids] => do
+    let nid ← nat? nid
+    let rids ← nats? rids
+    let r := Routing.removeMany st rids nid
+    some (r, s!"ok|{dumpRouting r}")
+  | ["prune", oldest, limit, ignore, deleted] => do
+    let oldest ← nat? oldest
+    let limit ← (if limit == "-" then some none else (nat? limit).map some)
+    let ignore ← nat? ignore
+    let deleted ← parseKeys deleted
+    let sel := guessSelection st oldest limit ignore deleted
+    match Routing.step st (.prune oldest limit ignore sel) with
+    | none => some (st, "rejected")
+    | some st' =>
+      let gone := (st.filter (fun e => (find e.1 st').isNone)).map (·.1)
+      if sameSet gone deleted then
+        some (st', s!"{(Routing.pruneWith st ignore sel).2}|{dumpRouting st'}")
+      else some (st, "rejected")
+  | ["entry", rid, nid] => do
+    let rid ← nat? rid
+    let nid ← nat? nid
+    some (st, match find (rid, nid) st with
+      | some t => toString t
+      | none => "-")
+  | ["get", rid] => do
+    let rid ← nat? rid
+    some (st, showNats (sortNats (Routing.get st rid)))
+  | ["inv", nid] => do
+    let nid ← nat? nid
+    some (st, showNats (sortNats (Routing.inventory st nid)))
+  | ["len"] => some (st, toString st.length)
+  | ["count", rid] => do
+    let rid ← nat? rid
+    some (st, toString (Routing.get st rid).length)
+  | _ => none
+
+/-! ### sync status -/
+
+def dumpSync (st : SyncStatus) : String :=
+  showRows (st.map fun e => ([e.1.1, e.1.2], s!"{e.1.1}.{e.1.2}={e.2.1}@{e.2.2}"))
+
+def syncOp (st : SyncStatus) (f : List String) : Option (SyncStatus × String) :=
+  match f with
+  | ["syn", rid, nid, head, t] => do
+    let rid ← nat? rid
+    let nid ← nat? nid
+    let head ← nat? head
+    let t ← nat? t
+    let r := Guarded.set st (rid, nid) head t
+    some (r.1, s!"{showBool r.2}|{dumpSync r.1}")
+  | ["for", rid] => do
+    let rid ← nat? rid
+    some (st, showRows ((st.filter (fun e => e.1.1 = rid)).map fun e => ([e.1.2], s!"{e.1.2}={e.2.1}@{e.2.2}")))
+  | ["by", nid] => do
+    let nid ← nat? nid
+    some (st, showRows ((st.filter (fun e => e.1.2 = nid)).map fun e => ([e.1.1], s!"{e.1.1}={e.2.1}@{e.2.2}")))
+  | _ => none
+
+/-! ### refs -/
+
+def dumpRefs (st : RefsDb) : String :=
+  showRows (st.map fun e => ([e.1.1, e.1.2.1, e.1.2.2], s!"{e.1.1}.{e.1.2.1}.{e.1.2.2}={e.2.1}@{e.2.2}"))
+
+def refsOp (st : RefsDb) (f : List String) : Option (RefsDb × String) :=
+  match f with
+  | ["set", repo, ns, rf, oid, t] => do
+    let repo ← nat? repo
+    let ns ← nat? ns
+    let rf ← nat? rf
+    let oid ← nat? oid
+    let t ← nat? t
+    let r := Guarded.set st (repo, ns, rf) oid t
+    some (r.1, s!"{showBool r.2}|{dumpRefs r.1}")
+  | ["del", repo, ns, rf] => do
+    let repo ← nat? repo
+    let ns ← nat? ns
+    let rf ← nat? rf
+    let r := Guarded.delete st (repo, ns, rf)
+    some (r.1, s!"{showBool r.2}|{dumpRefs r.1}")
+  | ["get", repo, ns, rf] => do
+    let repo ← nat? repo
+    let ns ← nat? ns
+    let rf ← nat? rf
+    some (st, match find (repo, ns, rf) st with
+      | some (o, t) => s!"{o}@{t}"
+      | none => "-")
+  | ["count"] => some (st, toString st.length)
+  | _ => none
+
+/-! ### policies -/
+
+def policy? (s : String) : Option Policy :=
+  if s == "a" then some .allow else if s == "b" then some .block else none
+
+def showPolicy : Policy → String
+  | .allow => "a"
+  | .block => "b"
+
+def dumpPolicy (db : PolicyDb) : String :=
+  let f := showRows (db.following.map fun e => ([e.1], s!"{e.1}={e.2.alias}/{showPolicy e.2.policy}"))
+  let s := showRows (db.seeding.map fun e => ([e.1],
+    match db.seedPolicy e.1 with
+    | some (.allow .followed) => s!"{e.1}=A.f"
+    | some (.allow .all) => s!"{e.1}=A.a"
+    | some .block => s!"{e.1}=B"
+    | none => s!"{e.1}=?"))
+  s!"F:{f};S:{s}"
+
+def policyOp (db : PolicyDb) (f : List String) : Option (PolicyDb × String) := do
+  let op : POp ← (match f with
+    | ["follow", id, a] => do
+      let id ← nat? id
+      let a ← nat? a
+      some (POp.follow id a)
+    | ["fpol", id, p] => do
+      let id ← nat? id
+      let p ← policy? p
+      some (POp.setFollowPolicy id p)
+    | ["unfollow", id] => (nat? id).map POp.unfollow
+    | ["unblockn", id] => (nat? id).map POp.unblockNid
+    | ["seed", id, s] => do
+      let id ← nat? id
+      let s ← (if s == "f" then some Scope.followed else if s == "a" then some Scope.all else none)
+      some (POp.seed id s)
+    | ["spol", id, p] => do
+      let id ← nat? id
+      let p ← policy? p
+      some (POp.setSeedPolicy id p)
+    | ["unseed", id] => (nat? id).map POp.unseed
+    | ["unblockr", id] => (nat? id).map POp.unblockRid
+    | _ => none)
+  let r := db.step op
+  some (r.1, s!"{showBool r.2}|{dumpPolicy r.1}")
+
+/-! ### gossip -/
+
+def showGRow (e : GKey × GRow) : String := s!"{e.1.1}.{e.1.2.1}.{e.1.2.2}={e.2.payload}@{e.2.ts}"
+
+def dumpGossip (st : Gossip) : String :=
+  showRows (st.map fun e => ([e.1.1, e.1.2.1, e.1.2.2], showGRow e))
+
+def relay? (s : String) : Option Relay :=
+  if s == "r" then some .relay
+  else if s == "d" then some .dontRelay
+  else if s.startsWith "t" then (nat? (String.ofList (s.toList.drop 1))).map .relayedAt
+  else none
+
+def validKey (repo ty : Nat) : Bool := (ty = 2 && repo ≥ 1) || (ty < 2 && repo = 0)
+
+/-- `none` = malformed; `some (none, out)` = the store panicked. -/
+def gossipOp (st : Gossip) (f : List String) : Option (Option Gossip × String) :=
+  match f with
+  | ["ann", node, repo, ty, p, ts] => do
+    let node ← nat? node
+    let repo ← nat? repo
+    let ty ← nat? ty
+    let p ← nat? p
+    let ts ← nat? ts
+    if !validKey repo ty then none else
+    match Gossip.step st (.announced (node, repo, ty) p ts) with
+    | none => some (none, "panic")
+    | some (st', .id (some id)) => some (some st', s!"{id}|{dumpGossip st'}")
+    | some (st', _) => some (some st', s!"none|{dumpGossip st'}")
+  | ["relay", id, r] => do
+    let id ← nat? id
+    let r ← relay? r
+    match Gossip.step st (.setRelay id r) with
+    | some (st', _) => some (some st', "ok")
+    | none => some (none, "panic")
+  | ["relays", now] => do
+    let now ← nat? now
+    match Gossip.step st (.relays now) with
+    | some (st', .rows rows) =>
+      let rows := sortBy (fun a b => decide (a.2.rowid < b.2.rowid)) rows
+      some (some st', if rows.isEmpty then "-" else joinWith "," (rows.map fun e => s!"{e.2.rowid}:{showGRow e}"))
+    | _ => some (none, "panic")
+  | ["prune", cutoff] => do
+    let cutoff ← nat? cutoff
+    match Gossip.step st (.prune cutoff) with
+    | some (st', .count n) => some (some st', s!"{n}|{dumpGossip st'}")
+    | _ => some (none, "panic")
+  | ["filt", a, b] => do
+    let a ← nat? a
+    let b ← nat? b
+    some (some st, dumpGossip (Gossip.filtered st a b))
+  | ["last"] =>
+    some (some st, match Gossip.last st with
+      | some t => toString t
+      | none => "-")
+  | _ => none
+
+/-! ### dispatch -/
+
+def runOps (step : σ → List String → Option (σ × String)) : σ → List String → List String → Option (List String)
+  | _, [], acc => some acc.reverse
+  | st, op :: ops, acc =>
+    match step st (splitOn op ':') with
+    | none => none
+    | some (st', out) => runOps step st' ops (out :: acc)
+
+def runGossip : Gossip → List String → List String → Option (List String)
+  | _, [], acc => some acc.reverse
+  | st, op :: ops, acc =>
+    match gossipOp st (splitOn op ':') with
+    | none => none
+    | some (none, out) => some (out :: acc).reverse
+    | some (some st', out) => runGossip st' ops (out :: acc)
+
+def run (args : List String) : String :=
+  let res : Option (List String) :=
+    match args with
+    | "routing" :: ops => runOps routingOp [] ops []
+    | "sync" :: ops => runOps syncOp [] ops []
+    | "refs" :: ops => runOps refsOp [] ops []
+    | "policy" :: ops => runOps policyOp ⟨[], []⟩ ops []
+    | "gossip" :: ops => runGossip [] ops []
+    | _ => none
+  match res with
+  | some outs => if outs.isEmpty then "empty" else joinWith " " outs
+  | none => "bad-op"
 
 end HeartwoodModel.Driver.C24
